@@ -133,7 +133,9 @@ def gen_scenarios(tier, seed):
             fr.append((50, T * 1000 * 10))
         fr += fragments(rng, P - sum(n for n, _ in fr), 60, [0, 100])
         out.append(mk(rng, family="timeout-long-gap" if long_gap else "timeout-no-gap", S=128, win_o=0, win_t=128,
-                      event_flags=rng.choice([0, TP_F_DISPATCH]), task_flags=rng.choice([0, TASK_F_EVERY_READ]), timeout_ms=T,
+                      event_flags=rng.choice([0, TP_F_DISPATCH]),
+                      # every fourth: the task comes from tp_task_connect_create() and its callback switches the handler
+                      task_flags=(0x40 if i % 4 == 1 else rng.choice([0, TASK_F_EVERY_READ])), timeout_ms=T,
                       on_timeout=rng.below(2), payload=rng.bytes(P), frags=fr, close_mode=1, quiesce_ms=40))
     # D: write task: window of the buffer must reach the peer byte-identical, slow peer, tiny send buffer
     for i in range(40 * scale):
